@@ -311,6 +311,7 @@ def c044(ctx):
             if t is not None and tr.edge_dom(bi, t, pu.bb):
                 kinds |= set(k)
         ctx.ob('C04.4', tr, 'stream-identity-checked', kinds == {'stream_kind', 'stream_id'}, 'a sidecar line is accepted only when its stream kind and stream id match (checked: %s)' % sorted(kinds), line=pu.line)
+    guarded_answers(ctx)
     # ---- C04.6
     rp = P.fn('ripd::continuities::ContinuityStore::replay_events')
     ctx.touch(rp)
@@ -324,3 +325,84 @@ def c044(ctx):
         ctx.ob('C04.6', rp, 'fast-path-checks-truth', bool(truth),
                'the sidecar answer is returned %s' % ('after consulting the truth log' if truth else
                                                      'without any dependence on the truth log: a sidecar that is well-formed but older than truth (rolled back, or a prefix left by a crash) is returned as the thread'), line=st.get('ln'))
+
+
+# comparison guards that must stand between a cache answer and its caller: (function, what, [name sets]);
+# a name set is matched against the field names and root-local names of the two compared operands
+GUARDS = [
+    ('ripd::continuity_stream_cache::ContinuityStreamCache::message_count_messages_runs_v1', 'last ordinal record vs. last message of the mr sidecar',
+     [{'seq', 'last_seq'}, {'last_id'}]),
+    ('ripd::continuity_stream_cache::ContinuityStreamCache::window_recent_messages_v1_from_message_id_full_sidecar', 'anchor header vs. requested anchor',
+     [{'seq', 'anchor_seq'}, {'id', 'anchor_message_id'}]),
+    ('ripd::continuity_stream_cache::ContinuityStreamCache::window_recent_messages_v1_from_message_id_messages_runs_v1', 'anchor header vs. requested anchor',
+     [{'seq', 'anchor_seq'}, {'id', 'anchor_message_id'}]),
+]
+
+
+def comparison_edges(f, names):
+    """[(switch block, equal-edge target)] of Eq/Ne comparisons (binary op or PartialEq call)
+    whose operands mention all `names` (field names or root local names)."""
+    from ..core import switches as _sw
+    out = []
+    for (bi, on, ts, els) in _sw(f):
+        o = f.origin(on)
+        ops = None
+        eq_tgt = None
+        if o[0] == 'rv' and o[1]['k'] == 'bin' and o[1]['op'] in ('Ne', 'Eq'):
+            ops = o[1]['a']
+            eq_tgt = ts.get('0') if o[1]['op'] == 'Ne' else els
+        elif o[0] == 'call' and re.search(r'PartialEq(<.*>)?(::|.*>::)(ne|eq)$', o[1].callee):
+            ops = o[1].args
+            eq_tgt = ts.get('0') if o[1].name == 'ne' else els
+        if ops is None:
+            continue
+        seen = set()
+        for a in ops:
+            src = f.origin(a, through_calls=(r'::deref$', r'::as_str$', r'::as_ref$', r'::to_string$', r'::borrow$'))
+            if src[0] == 'local':
+                seen |= {pp.get('n') for pp in src[2] if isinstance(pp, dict) and 'f' in pp}
+                seen.add(f.lname(src[1]))
+            elif src[0] == 'call' and src[1].args:
+                s2 = f.origin(src[1].args[0], through_calls=(r'::deref$', r'::as_str$', r'::as_ref$'))
+                if s2[0] == 'local':
+                    seen |= {pp.get('n') for pp in s2[2] if isinstance(pp, dict) and 'f' in pp}
+                    seen.add(f.lname(s2[1]))
+        if names <= seen and eq_tgt is not None:
+            out.append((bi, eq_tgt))
+    return out
+
+
+def guarded_answers(ctx):
+    P = ctx.prog
+    for path, what, namesets in GUARDS:
+        f = P.fn(path)
+        ctx.touch(f)
+        answers = []
+        for (bi, si, st) in f.aggregates(r'^core::option::Option$', 'Some'):
+            # Some(..) that flows into the Ok return
+            if any(x[0] == bi or True for x in [(bi,)]):
+                answers.append(bi)
+        oks = [bi for (bi, si, st) in f.aggregates(r'^core::result::Result$', 'Ok') if st['d']['l'] == 0 and
+               not (f.origin(st['rv']['a'][0])[0] == 'rv' and f.origin(st['rv']['a'][0])[1].get('variant') == 'None')]
+        if not oks:
+            raise CheckError('C04.4: %s has no Ok(answer) return' % f.path)
+        for ns in namesets:
+            edges = comparison_edges(f, ns)
+            from ..core import edge_implies
+            ok = bool(edges) and all(any(f.edge_dom(bi, t, b) or edge_implies(f, bi, t, b) for (bi, t) in edges) or _loop_guard(f, edges, b) for b in oks)
+            ctx.ob('C04.4', f, 'guarded-answer:' + '+'.join(sorted(ns)), ok,
+                   '%s: the comparison on %s %s' % (what, sorted(ns), 'guards every Ok(answer)' if ok else ('is missing' if not edges else 'no longer guards the answer')),
+                   line=f.blocks[edges[0][0]]['t'].get('ln') if edges else f.line)
+
+
+def _loop_guard(f, edges, b):
+    """the comparison sits in a scan loop (first-iteration anchor check) that dominates the answer:
+    accept when the loop containing the comparison dominates b and the unequal edge cannot reach b."""
+    for (bi, t) in edges:
+        h = f.innermost_loop(bi)
+        if h is None or not f.dom(h, b):
+            continue
+        other = [x for x in f.succs(bi) if x != t]
+        if all(b not in f.reach(x) for x in other):
+            return True
+    return False
